@@ -170,7 +170,7 @@ impl Prop for C24 {
     fn runs(tier: Tier) -> u64 {
         match tier {
             Tier::Quick => 60_000,
-            Tier::Thorough => 3_000_000,
+            Tier::Thorough => 20_000_000,
         }
     }
     fn gen(r: &mut SplitMix, _t: Tier, _i: u64) -> Scn {
